@@ -321,6 +321,37 @@ var _ = reserr.ErrAccessDenied
 //@   assert[C14] s.temporaryConn#1: codec.predValidRID(rid, true) && codec.predValidPart(action)
 //@   safety[C15]
 
+// --- WebSocket entry (C17, C20) ---
+
+// The origin check of the upgrader: with an allow-list, a request bearing an Origin header other
+// than "null" passes only if the origin equals a listed origin, ASCII case ignored.
+//@ closure (*Service).initWSHandler#2
+//@   ensures[C17] result == (len(r.Header["Origin"]) == 0 || r.Header["Origin"][0] == "null" ||
+//@       (exists j int :: 0 <= j && j < len(origins) && predOriginEq(origins[j], r.Header["Origin"][0])))
+//@   assumes r != nil
+//@   safety[C15]
+
+//@ func (*Service).wsHeaderAuth
+//@   trusted
+//@   requires s != nil && c != nil
+//@ func (*wsConn).Dispose
+//@   trusted
+//@   requires c != nil
+//@ func (*wsConn).listen
+//@   trusted
+//@   requires c != nil
+
+// wsHandler: without a connection (service not running, or stopping) nothing is upgraded and
+// no service request is made; a direct response status of the header-auth answer ends the
+// request without upgrade.
+//@ func (*Service).wsHandler
+//@   requires s != nil && w != nil && r != nil && s.enc != nil
+//@   assumes s.conns != nil
+//@   assert[C20] s.upgrader.Upgrade#1: conn != nil
+//@   assert[C20] s.wsHeaderAuth#1: conn != nil
+//@   assert[C17] httpStatusResponse#1: meta != nil && callcount("Upgrade") == old(callcount("Upgrade")) && callcount("Dispose") == old(callcount("Dispose")) + 1
+//@   ensures[C20] callcount("newWSConn") == old(callcount("newWSConn")) + 1
+
 // --- fail-stop (C20) ---
 
 //@ immutable Service.conns
